@@ -34,7 +34,8 @@ TEllipse == /\ IsEvent("ellipse")
                /\ t.ex /\ t.major = t.a /\ t.minor = t.b /\ t.a >= t.b /\ t.b >= 0
                /\ t.a > t.b => (t.orient = <<C(t.ang), S(t.ang)>> \/ t.orient = <<-C(t.ang), -S(t.ang)>>)
                /\ t.recon = EllipseCov(t.a, t.b, t.ang)
-TraceNext == TReset \/ TReduce \/ TPosition \/ TEmbed \/ TSe3 \/ TCompose \/ TEllipse
+TGeneric == IsEvent("generic") /\ Tr[l].ordered /\ GenericOK(Tr[l].res)
+TraceNext == TGeneric \/ TReset \/ TReduce \/ TPosition \/ TEmbed \/ TSe3 \/ TCompose \/ TEllipse
 TraceSpec == TraceInit /\ [][TraceNext]_l
 TraceAccepted == TLCGet("stats").diameter - 1 = Len(Tr)
 =============================================================================
